@@ -316,6 +316,19 @@ fn build_public_batch_constraints(
     builder.register_public_inputs(&output_pis);
 }
 
+/// Verification hook (compiled only with `--cfg quantus_network_qp_zk_circuits_verif`): the
+/// crate-private wrapper constraint builder, callable from the conformance harness so the wrapper
+/// logic can be evaluated over free inner public inputs (no recursive verifier).
+#[cfg(quantus_network_qp_zk_circuits_verif)]
+pub fn verif_build_public_batch_constraints(
+    builder: &mut CircuitBuilder<F, D>,
+    targets: &PublicBatchCircuitTargets,
+    n_inner: usize,
+    private_batch_num_leaves: usize,
+) {
+    build_public_batch_constraints(builder, targets, n_inner, private_batch_num_leaves)
+}
+
 #[cfg(test)]
 mod tests {
     use super::*;
